@@ -64,14 +64,14 @@ pub fn html_scan(s: &str) -> Result<Vec<Tok>, String> {
         } else if b[i] == b'<' && i + 1 < b.len() && (b[i + 1].is_ascii_alphabetic() || b[i + 1] == b'_' || b[i + 1] >= 0x80) {
             // start tag
             let mut j = i + 1;
-            while j < b.len() && !(b[j] as char).is_whitespace() && b[j] != b'>' && b[j] != b'/' {
+            while j < b.len() && !b[j].is_ascii_whitespace() && b[j] != b'>' && b[j] != b'/' {
                 j += 1;
             }
             let name = s[i + 1..j].to_string();
             let mut attrs = vec![];
             let mut self_closed = false;
             loop {
-                while j < b.len() && (b[j] as char).is_whitespace() {
+                while j < b.len() && b[j].is_ascii_whitespace() {
                     j += 1;
                 }
                 if j >= b.len() {
@@ -90,7 +90,7 @@ pub fn html_scan(s: &str) -> Result<Vec<Tok>, String> {
                     return Err("stray / in tag".into());
                 }
                 let st = j;
-                while j < b.len() && !(b[j] as char).is_whitespace() && b[j] != b'=' && b[j] != b'>' && b[j] != b'/' {
+                while j < b.len() && !b[j].is_ascii_whitespace() && b[j] != b'=' && b[j] != b'>' && b[j] != b'/' {
                     j += 1;
                 }
                 let an = s[st..j].to_string();
@@ -211,6 +211,8 @@ struct Walk<'a> {
     i: usize,
     indent: bool,
     cdata: u8,
+    /// the call target is a text node whose parent (not part of the output) is a requested CDATA-section element
+    top_text_in_cdata: bool,
     scopes: Vec<Scope>,
     fails: Vec<(String, String)>,
 }
@@ -348,7 +350,7 @@ impl<'a> Walk<'a> {
                 }
                 let pname = parent.filter(|p| p.k == K::Elem);
                 let raw = pname.map(|p| is_html_ns(&p.ns) && matches!(p.name.to_ascii_lowercase().as_str(), "script" | "style")).unwrap_or(false);
-                let in_cdata = pname.map(|p| (self.cdata == 1 && p.name == "p" && p.ns.is_empty()) || (self.cdata == 2 && p.name == "script" && p.ns.is_empty())).unwrap_or(false);
+                let in_cdata = pname.map(|p| (self.cdata == 1 && p.name == "p" && p.ns.is_empty()) || (self.cdata == 2 && p.name == "script" && p.ns.is_empty())).unwrap_or(self.top_text_in_cdata);
                 // collect the tokens that make up this text node (text and CDATA pieces)
                 let mut got = String::new();
                 let mut raw_lt_amp_outside = false;
@@ -448,6 +450,24 @@ pub fn eval_case(case: &Case, st: &mut Stats) -> Vec<Fail> {
     }
     let whole = &case.tree;
     let sub_owned = nth(whole, &mut 0, case.top).expect("top index").clone();
+    // the parent of the call target is not written: of its influence on a text child only a requested CDATA section
+    // stays (it delimits itself); the raw-text rule of script / style belongs to an element that is not in the output
+    fn parent_of<'a>(a: &'a A, idx: &mut usize, target: usize) -> Option<&'a A> {
+        *idx += 1 + a.nss.len() + a.attrs.len();
+        for c in &a.ch {
+            if *idx == target {
+                return Some(a);
+            }
+            if let Some(p) = parent_of(c, idx, target) {
+                return Some(p);
+            }
+        }
+        None
+    }
+    let top_text_in_cdata = sub_owned.k == K::Text
+        && parent_of(whole, &mut 0, case.top)
+            .map(|p| p.k == K::Elem && ((case.cdata == 1 && p.name == "p" && p.ns.is_empty()) || (case.cdata == 2 && p.name == "script" && p.ns.is_empty())))
+            .unwrap_or(false);
     let case = &Case { tree: sub_owned, cdata: case.cdata, indent: case.indent, top: case.top };
     let in_place = if case.top != 0 { format!(" (in place, node #{} of {})", case.top, whole.show()) } else { String::new() };
     let pname = xot.add_name("p");
@@ -532,7 +552,7 @@ pub fn eval_case(case: &Case, st: &mut Stats) -> Vec<Fail> {
             return fails;
         }
     };
-    let mut w = Walk { toks: &toks, i: 0, indent: case.indent.is_some(), cdata: case.cdata, scopes: vec![base_scope()], fails: vec![] };
+    let mut w = Walk { toks: &toks, i: 0, indent: case.indent.is_some(), cdata: case.cdata, top_text_in_cdata, scopes: vec![base_scope()], fails: vec![] };
     let complete = w.node(&case.tree, None);
     w.skip_ws();
     if complete && w.i != toks.len() {
@@ -641,6 +661,10 @@ fn sibling_cases() -> Vec<A> {
         // void elements inside an island that gets its default namespace from the serialiser
         A::el(MATHML, "math").child(A::el("", "br")),
         A::el(SVG, "svg").child(A::el("", "span").child(A::el("", "BR"))).child(A::el(SVG, "g")),
+        // an attribute without namespace that is called xmlns: written as it stands it is a declaration
+        A::el(SVG, "g").attr("", "xmlns", "urn:evil").child(A::el(SVG, "circle")),
+        A::el(MATHML, "math").attr("", "xmlns", "urn:evil"),
+        A::el("", "p").attr("", "xmlns", SVG).child(A::el(SVG, "svg")),
         A::comment("c"),
         A::pi("pi", Some("d")),
         A::pi("pi", Some("a>b")),
@@ -766,6 +790,7 @@ pub fn run(tier: Tier) -> i32 {
     let stats = par_slice(&ctx, &trees, |t, st| {
         // inner elements of the nested trees are also serialised in place
         let mut tops = vec![0usize];
+        let mut text_tops = vec![];
         if t.k == K::Doc && t.ch.len() == 1 && t.ch[0].k == K::Elem && t.ch[0].ch.iter().any(|c| c.k == K::Elem && !c.ch.is_empty()) {
             let mut i = 0usize;
             t.walk_all(&mut |n: &A| {
@@ -775,10 +800,21 @@ pub fn run(tier: Tier) -> i32 {
                 i += 1;
             });
         }
+        // and so is every text node (its parent, script and style included, is then not part of the output)
+        if t.k == K::Doc {
+            let mut i = 0usize;
+            t.walk_all(&mut |n: &A| {
+                if n.k == K::Text && i > 0 {
+                    tops.push(i);
+                    text_tops.push(i);
+                }
+                i += 1;
+            });
+        }
         for top in tops {
         for cdata in 0..3u8 {
             for indent in [None, Some(0u8), Some(1u8)] {
-                if top != 0 && (cdata == 2 || indent == Some(1)) {
+                if top != 0 && (indent == Some(1) || (cdata == 2 && !text_tops.contains(&top))) {
                     continue;
                 }
                 let case = Case { tree: t.clone(), cdata, indent, top };
@@ -803,7 +839,7 @@ pub fn run(tier: Tier) -> i32 {
         return 2;
     }
     let cov = json!({
-        "rule": format!("(1) single elements: 11 names (br/BR/Br/p/P/span/div/pre/script/style/foo) x 5 namespaces (none, the real XHTML URI, MathML, SVG, foreign) x default / prefixed declaration, bare, with ordinary / boolean attributes, with children, with every text / attribute value of length <= {} over {{<,&,\",',>,U+00A0,x}}; (2) 4 parents x all ordered pairs of 19 children (SVG / MathML siblings with and without own declarations, void elements in every letter case, script / style / p with markup characters, foreign elements, comments, PIs with and without '>', text); (2b) every chain of three nested elements over the 5 namespaces, each level using a prefix declared on the root or declaring its namespace as default on itself, with a text child and a following sibling at the innermost level; (2c) every inner element of the nested trees of (2) / (2b) serialised in place (the declarations of its ancestors in scope); (3) detached nodes of every kind and text directly under a document; x CDATA-section elements {{none, p, script}} x indentation {{off, on, on with p suppressed}}; distinct = distinct (tree, parameters)", tier.pick(2, 3)),
+        "rule": format!("(1) single elements: 11 names (br/BR/Br/p/P/span/div/pre/script/style/foo) x 5 namespaces (none, the real XHTML URI, MathML, SVG, foreign) x default / prefixed declaration, bare, with ordinary / boolean attributes, with children, with every text / attribute value of length <= {} over {{<,&,\",',>,U+00A0,x}}; (2) 4 parents x all ordered pairs of 24 children (SVG / MathML siblings with and without own declarations, void elements in every letter case, script / style / p with markup characters, foreign elements, comments, PIs with and without '>', text); (2b) every chain of three nested elements over the 5 namespaces, each level using a prefix declared on the root or declaring its namespace as default on itself, with a text child and a following sibling at the innermost level; (2c) every inner element of the nested trees of (2) / (2b) and every text node of every tree serialised in place (the declarations of its ancestors in scope; the parent - script and style included - not part of the output); (3) detached nodes of every kind and text directly under a document; x CDATA-section elements {{none, p, script}} x indentation {{off, on, on with p suppressed}}; distinct = distinct (tree, parameters)", tier.pick(2, 3)),
     });
     ctx.finish(stats, cov, vec!["HtmlScan (120 lines) is trusted; it knows script / style as raw-text elements".into()])
 }
